@@ -620,7 +620,7 @@ register_Color3()
         .def("hsv2rgb", &hsv2rgb<T>, 
     	     "C.hsv2rgb() -- returns a new color which "
              "is C converted from RGB to HSV")
-         .def("hsv2rgb", &rgb2hsvTuple<T>)
+         .def("hsv2rgb", &hsv2rgbTuple<T>)
          
          .def("rgb2hsv", &rgb2hsv<T>, 	 			
               "C.rgb2hsv() -- returns a new color which "
